@@ -288,10 +288,13 @@ namespace sim
 
 		asio::ip::tcp::endpoint from = s->local_bound_to(ec);
 
-		route network_route = m_config.channel_route(from.address()
-			, target.address());
-		c->hops[0] = remote->get_outgoing_route() + network_route + s->get_incoming_route();
-		c->hops[1] = s->get_outgoing_route() + network_route + remote->get_incoming_route();
+		// the network route is specific to the direction
+		c->hops[0] = remote->get_outgoing_route()
+			+ m_config.channel_route(target.address(), from.address())
+			+ s->get_incoming_route();
+		c->hops[1] = s->get_outgoing_route()
+			+ m_config.channel_route(from.address(), target.address())
+			+ remote->get_incoming_route();
 
 		c->ep[0] = s->local_bound_to(ec);
 		c->ep[1] = remote->local_bound_to(ec);
